@@ -2,7 +2,7 @@
 //   stdin : "<xb> <xe> <db> <de> <n>"  (the doubles as decimal u64 bit patterns)
 //   stdout: "<answer> # <statistics of the property on the returned vector>"
 //           answer     = same format as lean/TfelVerif/C15/Driver.lean (one variant)
-//           statistics = size first last back minlen maxabs rmin rmax zero minpos   (see below)
+//           statistics = size first last back minlen maxabs rmin rmax zero minpos nonfinite   (see below)
 #include <cmath>
 #include <cstdint>
 #include <cstdio>
@@ -61,8 +61,11 @@ int main() {
     double back = 0., minlen = std::numeric_limits<double>::infinity(), maxabs = 0.;
     double minpos = std::numeric_limits<double>::infinity();  // smallest non-zero |length|
     double rmin = std::numeric_limits<double>::infinity(), rmax = -rmin;
-    std::size_t zero = 0, worst = 0;
-    for (std::size_t i = 0; i != c; ++i) maxabs = std::fmax(maxabs, std::fabs(v[i]));
+    std::size_t zero = 0, worst = 0, nonfinite = 0;
+    for (std::size_t i = 0; i != c; ++i) {
+      if (!std::isfinite(v[i])) ++nonfinite;  // NaN / infinite node
+      maxabs = std::fmax(maxabs, std::fabs(v[i]));
+    }
     for (std::size_t i = 0; i + 1 < c; ++i) {
       const double len = dir * (v[i + 1] - v[i]);
       if (-len > back) {
@@ -83,9 +86,9 @@ int main() {
       }
     }
     char buf[512];
-    std::snprintf(buf, sizeof buf, " # size=%zu first=%d last=%d back=%.17g at=%zu minlen=%.17g maxabs=%.17g rmin=%.17g rmax=%.17g zero=%zu minpos=%.17g",
+    std::snprintf(buf, sizeof buf, " # size=%zu first=%d last=%d back=%.17g at=%zu minlen=%.17g maxabs=%.17g rmin=%.17g rmax=%.17g zero=%zu minpos=%.17g nonfinite=%zu",
                   c, int(c > 0 && toBits(v.front()) == bxb), int(c > 0 && toBits(v.back()) == bxe), back, worst, minlen,
-                  maxabs, rmin, rmax, zero, minpos);
+                  maxabs, rmin, rmax, zero, minpos, nonfinite);
     std::cout << buf << "\n";
   }
   return 0;
